@@ -60,14 +60,14 @@ def _sysroot():
 
 
 def _prune(keep):
-    """keep at most three tree hashes of facts"""
+    """keep at most nine tree hashes of facts"""
     base = os.path.join(CACHE, "facts")
     if not os.path.isdir(base):
         return
     ds = [os.path.join(base, d) for d in os.listdir(base)]
     ds = [d for d in ds if os.path.isdir(d) and os.path.basename(d) != keep]
     ds.sort(key=lambda d: os.path.getmtime(d), reverse=True)
-    for d in ds[2:]:
+    for d in ds[8:]:
         shutil.rmtree(d, ignore_errors=True)
 
 
@@ -90,8 +90,12 @@ def extract(config="default", repo=None, quiet=True):
         os.makedirs(outdir, exist_ok=True)
         tgt = os.path.join(CACHE, "tgt")
         # cargo's freshness cache would skip the wrapper: forget the members' fingerprints
-        for fp in glob.glob(os.path.join(tgt, "debug", ".fingerprint", "pdf-*")):
-            shutil.rmtree(fp, ignore_errors=True)
+        # (cargo hashes workspace members by their path *relative to the workspace root*, so a
+        # scratch copy of the repository collides with /repo in a shared target directory and
+        # mtime-based freshness would reuse the other tree's proc-macro: always rebuild members)
+        for pat in ("pdf-*", "pdf_derive-*"):
+            for fp in glob.glob(os.path.join(tgt, "debug", ".fingerprint", pat)):
+                shutil.rmtree(fp, ignore_errors=True)
         env = dict(os.environ)
         env.update({
             "LD_LIBRARY_PATH": _sysroot() + "/lib",
